@@ -14,10 +14,11 @@ import sys, os, subprocess, json, shutil, time
 
 ID, v, dest, demo = sys.argv[1:5]
 cmd = sys.argv[sys.argv.index("--") + 1:]
-wt = "/tmp/seed/%s" % ID
+ROOT = os.environ.get("SEED_ROOT", "/tmp/seed")
+wt = "%s/%s" % (ROOT, ID)
 out = "%s/OUT/%s" % (wt, v)
 env = dict(os.environ, CARGO_TARGET_DIR="%s/target" % wt, CARGO_NET_OFFLINE="true")
-name = "%s%s" % (ID, v)
+name = os.environ.get("SEED_NAME") or "%s%s" % (ID, v)
 store = "/verif/seeded/%s" % name
 
 
